@@ -200,6 +200,7 @@ def rule_idle(ctx: Ctx) -> None:
 def run(ctx: Ctx) -> None:
     from . import c13
     c13.rule_time_passthrough(ctx, rule="C15.1")
+    c13.rule_pushed_is_popped(ctx, f"{RD}._push_scheduled", "C15.1")
     rule_not_early(ctx)
     rule_order(ctx)
     rule_idle(ctx)
